@@ -53,6 +53,9 @@ type Program struct {
 	Inlined      map[string]bool
 	Abstracted   map[string]bool
 	footprints   map[*FuncInfo]*footprintT
+	MutableGlobals map[*types.Var]bool
+	GlobalInit     map[*types.Var]ast.Expr
+	GlobalInfo     map[*types.Var]*packages.Package
 }
 
 type VC struct {
@@ -79,6 +82,7 @@ type VC struct {
 	topPanics []*State
 	analyzed  map[ast.Node]bool
 	noKF      bool
+	ghostTypes map[string]types.Type
 }
 
 type jumpTarget struct {
